@@ -204,6 +204,31 @@ def run(ctx):
                 pass  # judged by the monitor
             if i < 12 and i % 2 == 0:
                 ctx.sample("term", {"spec": spec, "y": ys[:6], "tsukamoto": term.tsukamoto(np.array(ys[:6]))})
+        # the same term and array object used again after refilling the array / changing the parameters (stale state, aliasing)
+        for i, rnd in ctx.cases("reuse", len(kinds) * ctx.scale(10, 200)):
+            kind = kinds[i % len(kinds)]
+            spec = G.shape_term(rnd, "t", -2.0, 3.0, kind=kind, d=3, degenerate=False)
+            term = G.build_term(fl, spec)
+            h = spec["height"]
+            buf = np.array(y_values(rnd, h)[:12])
+            for _ in range(3):
+                try:
+                    r1 = term.tsukamoto(buf)
+                    keep = np.array(r1, copy=True)
+                    buf[:] = [rnd.uniform(0, term.height) * 0.999 + 1e-12 for _ in range(buf.size)]
+                    ctx.hit("event:buffer refilled in place")
+                    if not np.array_equal(np.asarray(r1), keep, equal_nan=True):
+                        ctx.violation(f"{kind}: a returned tsukamoto result changes when the argument array is later modified", {"term": kind}, keep, r1)
+                    term.tsukamoto(buf)
+                    other = G.shape_term(rnd, "t", -2.0, 3.0, kind=kind, d=3, degenerate=False)
+                    for attr, v in zip(R.ATTRS[kind], other["params"]):
+                        setattr(term, attr, v)
+                    term.height = other["height"]
+                    buf[:] = [rnd.uniform(0, term.height) * 0.999 + 1e-12 for _ in range(buf.size)]
+                    ctx.hit("event:parameters changed between calls")
+                    term.tsukamoto(buf)
+                except Exception:
+                    pass
         others = [k for k in R.REF if k not in R.MONOTONIC]
         for i, rnd in ctx.cases("refusal", len(others) + 3):
             if i < len(others):
